@@ -204,7 +204,8 @@ class Run(object):
                 del _Q[idx]
                 f(*a, **kw)
                 return True
-        return False
+        # nothing queued: acceptable only if caller i has been notified already (a synchronous notification)
+        return len(self.notified[i]) == 1
 
     def drain_fifo(self):
         turns = 0
@@ -256,11 +257,11 @@ def _kinds_ok(n, kinds):
     for i in range(n):
         if kinds[i] not in allowed:
             return False
-    if B.get("kmask") is not None:
-        # one process per failure mask: bit i set <=> operation i is of the second allowed kind
-        for i in range(n):
-            if kinds[i] != allowed[(B["kmask"] >> i) & 1]:
-                return False
+    if B.get("k0in") is not None and kinds[0] not in B["k0in"]:
+        # case split on the kind of the first operation (one process per value)
+        return False
+    if B.get("k1in") is not None and n > 1 and kinds[1] not in B["k1in"]:
+        return False
     if B.get("need_sync"):
         some = False
         for i in range(n):
@@ -319,21 +320,338 @@ def _execute(cls_id, n, with_e, choices, kinds, rot, raw):
     return run.verdict()
 
 
-def h_serialized(cls_id: int, n: int, rot: int, raw: bool, k0: int, k1: int, k2: int, k3: int,
+def h_serialized(k0: int, k1: int, k2: int, k3: int,
                  c0: int, c1: int, c2: int, c3: int, c4: int, c5: int, c6: int, c7: int) -> bool:
     """
-    pre: cls_id == B["cls"] and n == B["n"] and 0 <= rot < B["nrot"] and raw == B["raw"]
-    pre: _kinds_ok(n, [k0, k1, k2, k3])
+    pre: _kinds_ok(B["n"], [k0, k1, k2, k3])
     post: _ == True
     """
-    return _execute(cls_id, n, False, [c0, c1, c2, c3, c4, c5, c6, c7], [k0, k1, k2, k3], rot, raw)
+    return _execute(B["cls"], B["n"], False, [c0, c1, c2, c3, c4, c5, c6, c7], [k0, k1, k2, k3], B["rot"], B["raw"])
 
 
-def h_serialized_notify(cls_id: int, n: int, rot: int, raw: bool, k0: int, k1: int, k2: int,
+def h_serialized_notify(k0: int, k1: int, k2: int,
                         c0: int, c1: int, c2: int, c3: int, c4: int, c5: int, c6: int, c7: int, c8: int) -> bool:
     """
-    pre: cls_id == B["cls"] and n == B["n"] and 0 <= rot < B["nrot"] and raw == B["raw"]
-    pre: _kinds_ok(n, [k0, k1, k2])
+    pre: _kinds_ok(B["n"], [k0, k1, k2])
     post: _ == True
     """
-    return _execute(cls_id, n, True, [c0, c1, c2, c3, c4, c5, c6, c7, c8], [k0, k1, k2], rot, raw)
+    return _execute(B["cls"], B["n"], True, [c0, c1, c2, c3, c4, c5, c6, c7, c8], [k0, k1, k2], B["rot"], B["raw"])
+
+
+# ---- NodeMaker.create_from_cap: one node object per (capability string, deep_immutable) ---------
+
+from allmydata import uri as uri_mod
+from allmydata import nodemaker as nm_mod
+from allmydata import dirnode as dn_mod
+from allmydata.unknown import UnknownNode
+from allmydata.blacklist import ProhibitedNode
+
+hlib.encoded(nm_mod.NodeMaker.create_from_cap, nm_mod.NodeMaker._create_from_single_cap,
+             nm_mod.NodeMaker._create_mutable, nm_mod.NodeMaker._create_dirnode)
+
+_W1 = uri_mod.WriteableSSKFileURI(b"w" * 16, b"f" * 32)
+_W2 = uri_mod.WriteableSSKFileURI(b"w" * 16, b"f" * 31 + b"g")      # differs from _W1 only at the very end of the string
+_M1 = uri_mod.WriteableMDMFFileURI(b"x" * 16, b"g" * 32)
+_C1 = uri_mod.CHKFileURI(b"k" * 16, b"u" * 32, 3, 10, 1000)
+# (cap string, names a mutable object)
+CAPS = [
+    (_W1.to_string(), True),
+    (_W2.to_string(), True),
+    (_W1.get_readonly().to_string(), True),
+    (_M1.to_string(), True),
+    (uri_mod.DirectoryURI(_W1).to_string(), True),
+    (uri_mod.DirectoryURI(_W1).get_readonly().to_string(), True),
+    (uri_mod.MDMFDirectoryURI(_M1).to_string(), True),
+    (_C1.to_string(), False),
+    (uri_mod.ImmutableDirectoryURI(_C1).to_string(), False),
+    (uri_mod.LiteralFileURI(b"hello").to_string(), False),
+    # MDMF caps spelled with trailing extension hints (":k:segsize"): uri.from_string accepts them and to_string() drops
+    # them, so the cap STRING the caller uses differs from the canonical one -- the cache must still key on the caller's string
+    (_M1.to_string() + b":3:131073", True),
+    (_M1.get_readonly().to_string() + b":3:131073", True),
+    (uri_mod.MDMFDirectoryURI(_M1).to_string() + b":3:131073", True),
+    (uri_mod.MDMFDirectoryURI(_M1).get_readonly().to_string() + b":3:131073", True),
+    (_M1.get_readonly().to_string(), True),
+]
+
+
+def _core(node):
+    return node.wrapped_node if isinstance(node, ProhibitedNode) else node
+
+
+# uri.from_string on the table entries is evaluated ONCE at import by the real function (base32 decoding under
+# CrossHair's byte-sequence model costs ~0.4 s per call); nodemaker sees a proxy module that looks the result up.
+_PARSED = {}
+for (_c, _m) in CAPS:
+    for _di in (False, True):
+        _PARSED[(_c, _di)] = uri_mod.from_string(_c, deep_immutable=_di, name=u"<unknown name>")
+
+
+class _UriProxy(object):
+    def __getattr__(self, name):
+        return getattr(uri_mod, name)
+
+    @staticmethod
+    def from_string(u, deep_immutable=False, name=u"<unknown name>"):
+        if name != u"<unknown name>" or (u, deep_immutable) not in _PARSED:
+            raise hlib.HarnessError("from_string outside the table")
+        return _PARSED[(u, deep_immutable)]
+
+
+nm_mod.uri = _UriProxy()
+NOTES.append("nodemaker's `uri.from_string` answers from a table filled at import by the real uri.from_string for the 15 caps x deep_immutable "
+             "(identical results; avoids re-running base32 under the symbolic byte model); cap identity of a node is compared field-wise")
+
+
+def _fields(u):
+    """structural identity of a parsed cap (URI.__eq__ goes through to_string/base32)"""
+    if hasattr(u, "_filenode_uri"):
+        return (type(u).__name__, _fields(u._filenode_uri))
+    out = [type(u).__name__]
+    for a in ("writekey", "readkey", "fingerprint", "key", "uri_extension_hash", "needed_shares", "total_shares", "size", "data"):
+        out.append(getattr(u, a, None))
+    return tuple(out)
+
+
+def h_node_cache(i1: int, i2: int, di1: bool, di2: bool, as_read1: bool, as_read2: bool, black1: bool, black2: bool) -> bool:
+    """
+    pre: 0 <= i1 < B["ncaps"] and 0 <= i2 < B["ncaps"]
+    pre: B["pairs"] == "all" or i2 == i1 or i2 == (i1 + 1) % B["ncaps"] or i2 == (i1 + 2) % B["ncaps"]
+    pre: B["pairs"] == "all" or (not as_read1 and not black1)
+    pre: (B.get("ar1") is None or as_read1 == B["ar1"]) and (B.get("bl1") is None or black1 == B["bl1"])
+    post: _ == True
+    """
+    nm = nm_mod.NodeMaker(None, None, None, None, None, {"k": 3, "n": 10}, None, None)
+    flags = [black1, black2]
+    turn = [0]
+    nm.blacklist = NS(check_storageindex=lambda si: ("prohibited" if flags[turn[0]] else None))
+    (c1, mut1) = CAPS[i1]
+    (c2, mut2) = CAPS[i2]
+    n1 = nm.create_from_cap(None, c1, deep_immutable=di1) if as_read1 else nm.create_from_cap(c1, None, deep_immutable=di1)
+    turn[0] = 1
+    n2 = nm.create_from_cap(None, c2, deep_immutable=di2) if as_read2 else nm.create_from_cap(c2, None, deep_immutable=di2)
+    for (n, c, mut, di, blk) in ((n1, c1, mut1, di1, black1), (n2, c2, mut2, di2, black2)):
+        if isinstance(n, ProhibitedNode) != blk:
+            return "blacklist wrapper wrong"
+        k = _core(n)
+        if mut and di:
+            # a mutable cap in a deep-immutable context must not yield a usable mutable node
+            if not isinstance(k, UnknownNode):
+                return "mutable cap accepted in deep-immutable context"
+        else:
+            if isinstance(k, UnknownNode):
+                return "known cap produced an UnknownNode"
+            if _fields(k.get_cap()) != _fields(_PARSED[(c, di)]):
+                return "node does not carry the capability that was asked for"
+            if k.is_mutable() != mut:
+                return "mutability of the node differs from the cap's"
+    same_key = (c1 == c2) and (di1 == di2)
+    k1, k2 = _core(n1), _core(n2)
+    if same_key and mut1 and not di1:
+        if k1 is not k2:
+            return "two nodes for one mutable capability string: their serializers are independent"
+        if isinstance(k1, dn_mod.DirectoryNode) and k1._node is not k2._node:
+            return "directory nodes share no backing mutable file node"
+    if not same_key and k1 is k2:
+        return "different capabilities share one node object"
+    return True
+
+
+# ---- directory edits through one client: no lost updates ------------------------------------------
+
+hlib.encoded(dn_mod.DirectoryNode.set_node, dn_mod.DirectoryNode.delete, dn_mod.DirectoryNode.set_metadata_for,
+             dn_mod.DirectoryNode.set_nodes, dn_mod.Adder.modify, dn_mod.Deleter.modify, dn_mod.MetadataSetter.modify)
+NOTES.append("DirectoryNode._unpack_contents/_pack_contents replaced (instance attributes) by dict copy: directory contents are a "
+             "{name: (child, metadata)} dict; allmydata.dirnode.time replaced by a constant clock")
+dn_mod.time = NS(time=lambda: 1000.0)
+
+E_ADD, E_DEL_X, E_META_Y, E_REPLACE_X = 0, 1, 2, 3
+
+
+class DirRun(object):
+    """A real DirectoryNode over a real MutableFileNode whose serialized `_modify` is a read-modify-write with
+    latency: the contents are read when the operation STARTS, the modifier is applied to that snapshot and the
+    result written when the operation's inner Deferred fires (so two overlapping operations lose an update)."""
+
+    def __init__(self, n, kinds, edits):
+        self.n = n
+        self.kinds = kinds
+        self.edits = edits
+        self.bad = None
+        fnode = MutableFileNode(None, None, {"k": 3, "n": 10}, None).init_from_cap(_W1)
+        self.fnode = fnode
+        self.dir = dn_mod.DirectoryNode(fnode, None, None)
+        self.dir._unpack_contents = lambda c: dict(c)
+        self.dir._pack_contents = lambda ch: dict(ch)
+        mk = lambda s: MutableFileNode(None, None, {"k": 3, "n": 10}, None).init_from_cap(
+            uri_mod.WriteableSSKFileURI(s * 16, b"f" * 32))
+        self.X, self.Y = mk(b"1"), mk(b"2")
+        self.kids = [mk(b"%d" % (3 + i)) for i in range(n)]
+        self.store = {u"x": (self.X, {}), u"y": (self.Y, {})}
+        self.inner = [defer.Deferred() for _ in range(n)]
+        self.errs = [OpError(i) for i in range(n)]
+        self.started = [False] * n
+        self.finished = [False] * n
+        self.notified = [[] for _ in range(n)]
+        self.callers = [None] * n
+        self.who = []                 # (modifier owner object, operation index) registered at request time
+        self.current = None
+        fnode._modify = self._modify
+        real_modify = MutableFileNode.modify
+
+        def modify(modifier, backoffer=None):
+            # instrumentation only: remember which request this modifier belongs to, then the real method
+            self.who.append((modifier.__self__, self.current))
+            return real_modify(fnode, modifier, backoffer)
+        fnode.modify = modify
+
+    def _modify(self, modifier, backoffer):
+        i = None
+        for (owner, idx) in self.who:
+            if owner is modifier.__self__:
+                i = idx
+        if i is None:
+            raise hlib.HarnessError("modify for an unknown request")
+        if self.started[i]:
+            self.bad = self.bad or "edit %d started twice" % i
+        self.started[i] = True
+        snapshot = dict(self.store)
+
+        def _commit(res, snapshot=snapshot, modifier=modifier):
+            new = modifier(snapshot, None, True)
+            if new is not None:
+                self.store = dict(new)
+            return res
+        d = defer.Deferred()
+        self.inner[i].addCallbacks(lambda res: d.callback(res), lambda f: d.errback(f))
+        d.addCallback(_commit)
+        return d
+
+    def request(self, i):
+        e = self.edits[i]
+        self.current = i
+        if e == E_ADD:
+            d = self.dir.set_node(u"new%d" % i, self.kids[i], None, True)
+        elif e == E_DEL_X:
+            d = self.dir.delete(u"x")
+        elif e == E_META_Y:
+            d = self.dir.set_metadata_for(u"y", {"tag": i})
+        else:
+            d = self.dir.set_node(u"x", self.kids[i], None, True)
+        self.callers[i] = d
+        d.addBoth(lambda res, i=i: self.notified[i].append(res))
+
+    def fire(self, i):
+        if self.kinds[i] == K_DEF_OK:
+            self.inner[i].callback(None)
+        else:
+            self.inner[i].errback(failure.Failure(self.errs[i]))
+
+    def deliver(self, i):
+        return False
+
+    def drain_fifo(self):
+        turns = 0
+        while _Q:
+            (f, a, kw) = _Q.pop(0)
+            f(*a, **kw)
+            turns += 1
+            if turns > 100:
+                raise hlib.HarnessError("eventual queue does not drain")
+
+    def verdict(self):
+        if self.bad:
+            return self.bad
+        # independent model: apply the edits whose publish succeeded, one after the other in request order
+        model = {u"x": self.X, u"y": self.Y}
+        tag = None
+        for i in range(self.n):
+            e = self.edits[i]
+            got = self.notified[i]
+            if len(got) != 1:
+                return "caller %d notified %d times" % (i, len(got))
+            r = got[0]
+            if self.kinds[i] != K_DEF_OK:
+                if not isinstance(r, failure.Failure) or r.value is not self.errs[i]:
+                    return "caller %d: expected its own failure, got %r" % (i, r)
+                continue
+            if e == E_ADD:
+                model[u"new%d" % i] = self.kids[i]
+                want = self.kids[i]
+            elif e == E_REPLACE_X:
+                model[u"x"] = self.kids[i]
+                want = self.kids[i]
+            elif e == E_DEL_X:
+                if u"x" not in model:
+                    if not isinstance(r, failure.Failure) or not r.check(dn_mod.NoSuchChildError):
+                        return "delete of a missing child did not fail with NoSuchChildError"
+                    continue
+                want = model.pop(u"x")
+            else:
+                tag = i
+                want = self.dir
+            if r is not want:
+                return "caller %d got %r" % (i, r)
+        final = self.store
+        if sorted(final.keys()) != sorted(model.keys()):
+            return "final directory has names %r, sequential application gives %r: an edit was lost" % (sorted(final), sorted(model))
+        for name in model:
+            if final[name][0] is not model[name]:
+                return "child %r is not the one the last successful edit set" % (name,)
+        if final[u"y"][1].get("tag") != tag:
+            return "metadata edit lost"
+        if _LOGERR:
+            return "a failure leaked into the serializer chain"
+        return True
+
+
+def _execute_dir(n, choices, kinds, edits):
+    del _Q[:]
+    del _LOGERR[:]
+    run = DirRun(n, kinds, edits)
+    done_r = [False] * n
+    done_f = [False] * n
+    t = 0
+    while True:
+        enabled = []
+        for i in range(n):
+            if not done_r[i] and (i == 0 or done_r[i - 1]):
+                enabled.append(("R", i))
+            if not done_f[i]:
+                enabled.append(("F", i))
+        if not enabled:
+            break
+        c = choices[t]
+        t += 1
+        pick = enabled[-1]
+        for idx in range(len(enabled) - 1):
+            if c == idx:
+                pick = enabled[idx]
+                break
+        (what, i) = pick
+        if what == "R":
+            done_r[i] = True
+            run.request(i)
+        else:
+            done_f[i] = True
+            run.fire(i)
+    run.drain_fifo()
+    return run.verdict()
+
+
+def _edits_ok(n, edits):
+    for i in range(n):
+        if not (0 <= edits[i] <= 3):
+            return False
+    if B.get("e0") is not None and edits[0] != B["e0"]:
+        return False
+    return True
+
+
+def h_dir_edits(k0: int, k1: int, k2: int, e0: int, e1: int, e2: int,
+                c0: int, c1: int, c2: int, c3: int, c4: int, c5: int) -> bool:
+    """
+    pre: _kinds_ok(B["n"], [k0, k1, k2]) and _edits_ok(B["n"], [e0, e1, e2])
+    post: _ == True
+    """
+    return _execute_dir(B["n"], [c0, c1, c2, c3, c4, c5], [k0, k1, k2], [e0, e1, e2])
